@@ -1663,7 +1663,7 @@ def discrete_second_loss(x, distrib=None, pmf=None):
 		E, V = distrib.stats(moments='mv')
 
 		# Calculate loss functions.
-		n2_bar = float(np.dot([np.subtract(x, range(int(x)))], distrib.cdf(range(int(x)))))
+		n2_bar = float(np.dot(np.subtract(x, range(int(x))), distrib.cdf(range(int(x)))))
 		n2 = 0.5 * ((x - E)**2 + (x - E) + V) - n2_bar
 
 	else:
